@@ -44,6 +44,27 @@ func rangeOrigin(p *Prog, c *Closures, rg *ssa.Range) (string, ssa.Value) {
 			return "dirset", rg.X
 		}
 	}
+	if prm, ok := v.(*ssa.Parameter); ok {
+		// a helper iterating over a set it was handed: look at what its callers pass
+		fn := prm.Parent()
+		idx := -1
+		for i, q := range fn.Params {
+			if q == prm {
+				idx = i
+			}
+		}
+		for _, g := range p.Funcs {
+			for _, b := range g.Blocks {
+				for _, in := range b.Instrs {
+					if call, ok := in.(*ssa.Call); ok && call.Call.StaticCallee() == fn && idx >= 0 && idx < len(call.Call.Args) {
+						if k := valueOrigin(p, c, call.Call.Args[idx]); k == "dirset" {
+							return "dirset", rg.X
+						}
+					}
+				}
+			}
+		}
+	}
 	if phi, ok := v.(*ssa.Phi); ok {
 		for _, e := range phi.Edges {
 			if ex, ok := e.(*ssa.Extract); ok {
@@ -56,6 +77,30 @@ func rangeOrigin(p *Prog, c *Closures, rg *ssa.Range) (string, ssa.Value) {
 		}
 	}
 	return "", nil
+}
+
+// valueOrigin: "dirset" if v is (a local holding) the result of a directory-listing call.
+func valueOrigin(p *Prog, c *Closures, v ssa.Value) string {
+	if ld, ok := v.(*ssa.UnOp); ok {
+		if al, ok := ld.X.(*ssa.Alloc); ok {
+			if refs := al.Referrers(); refs != nil {
+				for _, r := range *refs {
+					if st, ok := r.(*ssa.Store); ok {
+						v = st.Val
+					}
+				}
+			}
+		}
+	}
+	if ex, ok := v.(*ssa.Extract); ok {
+		v = ex.Tuple
+	}
+	if call, ok := v.(*ssa.Call); ok {
+		if f := call.Call.StaticCallee(); f != nil && inSod(p, f) && c.Of(f).Has(EFsReadDir) {
+			return "dirset"
+		}
+	}
+	return ""
 }
 
 // loopOfRange finds the natural loop whose body consumes the iterator.
@@ -92,22 +137,30 @@ func checkC11(p *Prog, r *Result, tier string) {
 
 	// R1: loops and their lookups
 	var dirLoop, idxLoop *natLoop
+	var dirFn, idxFn *ssa.Function
 	var dirSet ssa.Value
-	for _, b := range ctl.Blocks {
-		for _, in := range b.Instrs {
-			if rg, ok := in.(*ssa.Range); ok {
-				kind, v := rangeOrigin(p, c, rg)
-				switch kind {
-				case "dirset":
-					dirLoop = loopOfRange(ctl, rg)
-					dirSet = v
-				case "uuids":
-					idxLoop = loopOfRange(ctl, rg)
+	for _, f := range calleesWithin(p, ctl, 1) {
+		if f != ctl && !recvIs(f, a.Schema) {
+			continue // only the control itself and schema helpers it was split into
+		}
+		for _, b := range f.Blocks {
+			for _, in := range b.Instrs {
+				if rg, ok := in.(*ssa.Range); ok {
+					kind, v := rangeOrigin(p, c, rg)
+					switch kind {
+					case "dirset":
+						dirLoop = loopOfRange(f, rg)
+						dirSet = v
+						dirFn = f
+					case "uuids":
+						idxLoop = loopOfRange(f, rg)
+						idxFn = f
+					}
 				}
 			}
 		}
 	}
-	loopCanReport := func(lp *natLoop, wantAccess func(ev *Event) bool, construct string) {
+	loopCanReport := func(lp *natLoop, lfn *ssa.Function, wantAccess func(ev *Event) bool, construct string) {
 		if lp == nil {
 			r.Report("C11.R1", FuncName(ctl), construct, Violated, "the schema control has no such loop: one inclusion of the index/directory comparison is missing", p.Pos(ctl.Pos()), nil, true)
 			return
@@ -124,8 +177,9 @@ func checkC11(p *Prog, r *Result, tier string) {
 				seenRet = true
 			}
 		}
+		l.onEnd = func(l *effListener, x *Explorer, st *State, reason string) {}
 		x := NewExplorer(p, c, ctl, Valuation{}, l)
-		x.LoopFn, x.LoopHeader = ctl, lp.header
+		x.LoopFn, x.LoopHeader = lfn, lp.header
 		x.LoopBlocks = map[*ssa.BasicBlock]bool{}
 		for _, b := range lp.blocks {
 			x.LoopBlocks[b] = true
@@ -190,7 +244,7 @@ func checkC11(p *Prog, r *Result, tier string) {
 			r.Report("C11.R1", FuncName(ctl), construct, Violated, "no iteration of this loop can return ErrIndexCorrupted after the membership lookup: a divergence in this direction goes unnoticed", p.Pos(lp.header.Instrs[0].Pos()), nil, true)
 		}
 	}
-	loopCanReport(dirLoop, func(ev *Event) bool {
+	loopCanReport(dirLoop, dirFn, func(ev *Event) bool {
 		_, isLookup := ev.Instr.(*ssa.Lookup)
 		return isLookup && ev.Struct == a.ObjIndex && ev.Field == a.OIUuids
 	}, "loop over files: not indexed => ErrIndexCorrupted")
@@ -208,7 +262,7 @@ func checkC11(p *Prog, r *Result, tier string) {
 	if idxLoop != nil && !idxLooksUp {
 		r.Report("C11.R1", FuncName(ctl), "loop over index: not on disk => ErrIndexCorrupted", Violated, "the loop over indexed uuids does not look them up in the directory set", p.Pos(ctl.Pos()), nil, true)
 	} else {
-		loopCanReport(idxLoop, func(ev *Event) bool { return true }, "loop over index: not on disk => ErrIndexCorrupted")
+		loopCanReport(idxLoop, idxFn, func(ev *Event) bool { return true }, "loop over index: not on disk => ErrIndexCorrupted")
 	}
 
 	// R2: index-level control precedes the directory listing
@@ -378,23 +432,37 @@ func checkC11(p *Prog, r *Result, tier string) {
 		// order of the two loops: stale entries are dropped before unindexed files are indexed (a stale entry may
 		// hold a unique value that a new file needs)
 		var accHdr, delHdr *ssa.BasicBlock
-		for _, lp := range naturalLoops(rep) {
-			for _, b := range lp.blocks {
-				for _, in := range b.Instrs {
-					call, ok := in.(*ssa.Call)
-					if !ok {
-						continue
+		classify := func(f *ssa.Function, pos func(lp natLoop) *ssa.BasicBlock) {
+			for _, lp := range naturalLoops(f) {
+				for _, b := range lp.blocks {
+					for _, in := range b.Instrs {
+						call, ok := in.(*ssa.Call)
+						if !ok {
+							continue
+						}
+						g := call.Call.StaticCallee()
+						if g == nil || !inSod(p, g) {
+							continue
+						}
+						cl := c.Of(g)
+						switch {
+						case cl.Has(EErrUnique) && cl.Has(EIdxWLive) && !cl.Has(EFsRObj):
+							accHdr = pos(lp)
+						case cl.Has(EIdxWLive) && !cl.Has(EErrUnique) && !cl.Has(EFsRObj) && !cl.Has(ETblR):
+							delHdr = pos(lp)
+						}
 					}
-					f := call.Call.StaticCallee()
-					if f == nil || !inSod(p, f) {
-						continue
-					}
-					cl := c.Of(f)
-					switch {
-					case cl.Has(EErrUnique) && cl.Has(EIdxWLive) && !cl.Has(EFsRObj):
-						accHdr = lp.header
-					case cl.Has(EIdxWLive) && !cl.Has(EErrUnique) && !cl.Has(EFsRObj) && !cl.Has(ETblR):
-						delHdr = lp.header
+				}
+			}
+		}
+		classify(rep, func(lp natLoop) *ssa.BasicBlock { return lp.header })
+		// a loop extracted into a helper counts at the position of the helper's call in Repair
+		for _, b := range rep.Blocks {
+			for _, in := range b.Instrs {
+				if call, ok := in.(*ssa.Call); ok {
+					if g := call.Call.StaticCallee(); g != nil && g.Blocks != nil && inSod(p, g) && g != rep && (recvIs(g, a.Schema) || recvIs(g, a.DB)) && len(naturalLoops(g)) > 0 && !c.Of(g).Has(ETblR) {
+						blk := b
+						classify(g, func(lp natLoop) *ssa.BasicBlock { return blk })
 					}
 				}
 			}
